@@ -295,7 +295,9 @@ impl IRBuilder {
             .map(|(i, term)| match term {
                 Term::Variable(v) => v.clone(),
                 Term::Constant(_) => format!("_const_a{atom_idx}_c{i}"),
-                Term::Placeholder => format!("_ph_{}_{}", atom.relation, i),
+                // Include atom_idx: each `_` is its own anonymous variable, two atoms over
+                // the same relation must not share a column name (it would become a join key)
+                Term::Placeholder => format!("_ph_a{atom_idx}_{}_{}", atom.relation, i),
                 // Aggregates in body atoms refer to the variable they aggregate
                 Term::Aggregate(_, v) => v.clone(),
                 // Arithmetic expressions - use the variables they reference
